@@ -121,6 +121,8 @@ def random_universe(xo, r):
             ms = [p for p in pool if not _is_ref(p) and not _is_uref(xo, p)]
             ms = r.sample(ms, min(len(ms), r.choice([1, 2]))) if ms else []
             c = type(name, (xo.UnionRef,), {"_reftypes": ms}) if ms else type(name, (xo.Struct,), {"v": xo.Int32})
+            if ms and made and r.random() < 0.4:
+                c._depends_on = [r.choice(made)]      # a union that also DECLARES a dependency (its member list must not grow by it)
         made.append(c)
     # extra declared dependencies, possibly cyclic
     structs = [c for c in made if isinstance(c, type) and issubclass(c, xo.Struct)]
@@ -241,11 +243,22 @@ def run_all(tier, seed):
         lines.append(f"sortc {','.join(str(idx[c.__name__]) for c in roots)} {fmt_univ(univ)}")
         srcgraph = {i: ds for i, (ds, _) in univ.items()}
         truth = has_cycle(srcgraph)
+        members0 = {n: [m.__name__ for m in c._reftypes] for n, c in by_name.items() if _is_uref(xo, c)}
         try:
             out = sort_classes(list(roots))
             names = [c.__name__ for c in out]
             expect.append("order " + ",".join(str(idx[n]) for n in names))
             tags["sortc.ok"] += 1
+            # building is repeatable: sorting changes no class (the member list of a union is its own), a second sort gives the same
+            members1 = {n: [m.__name__ for m in c._reftypes] for n, c in by_name.items() if _is_uref(xo, c)}
+            if members1 != members0:
+                bad = [n for n in members0 if members0[n] != members1[n]]
+                fails.append(common.Failure("oracle", "C14:sort-changed-a-class", f"sort_classes changed the member list of {bad}: "
+                                            f"{[members0[n] for n in bad]} -> {[members1[n] for n in bad]} (the next build emits another enum)", ctx))
+            else:
+                again = [c.__name__ for c in sort_classes(list(roots))]
+                if again != names:
+                    fails.append(common.Failure("oracle", "C14:second-build-differs", f"sort_classes twice: {names} then {again}", ctx))
             if truth:
                 fails.append(common.Failure("oracle", "C14:cycle-not-reported", f"cyclic dependencies but sort_classes returned {names}", ctx))
             cnt = collections.Counter(names)
